@@ -575,24 +575,46 @@ def rule_opsem(P) -> RuleResult:
     call = ci.methods.get('__call__')
     if call is None:
         raise AnalysisError('anchor vanished: EvalBetween.__call__')
-    rets = [n for n in ast.walk(call.node) if isinstance(n, ast.Return) and n.value is not None and not is_none(n.value)]
-    env = {}
-    for st in ast.walk(call.node):
-        if isinstance(st, ast.Assign) and len(st.targets) == 1 and isinstance(st.targets[0], ast.Name) \
-                and isinstance(st.value, ast.Call) and isinstance(st.value.func, ast.Attribute) \
-                and isinstance(st.value.func.value, ast.Name) and st.value.func.value.id == 'self':
-            env[st.targets[0].id] = ('slot', st.value.func.attr)
-    want = [('chain', ('<=', '<='), (('slot', 'lower'), ('slot', 'operand'), ('slot', 'upper'))),
-            ('chain', ('>=', '>='), (('slot', 'upper'), ('slot', 'operand'), ('slot', 'lower')))]
-    if len(rets) != 1:
-        res.fail(ci.fq + '.__call__', 'operation', 'EvalBetween.__call__ must have one value-returning exit', loc(call))
+    from ..symex import Sym as _S, T as _T, Engine as _E, show as _sh
+    SELF_, CTXT = _S('NODE'), _S('ROW')
+    V = {'operand': _S('OPERAND'), 'lower': _S('LOWER'), 'upper': _S('UPPER')}
+
+    def on_call(fn, fv, rc, a, k, ex, nd):
+        if isinstance(fv, _T) and fv.op == 'attr' and fv.args[0] == SELF_ and fv.args[1] in V and a == (CTXT,):
+            return V[fv.args[1]]
+        return NotImplemented
+    seen_cmps = []
+
+    def oracle(term, ex):
+        if isinstance(term, _T) and term.op == 'cmp' and term.args[0] in ('<=', '>=', '<', '>') and \
+                isinstance(term.args[1], _S) and isinstance(term.args[2], _S):
+            seen_cmps.append(term)
+            return True
+        return None
+    good = False
+    shown = None
+    for p in _E(P, on_call=on_call, oracle=oracle).paths(call, {'self': SELF_, call.params[1]: CTXT}):
+        if p.outcome != 'return' or p.decisions:
+            shown = f'{p.outcome} under {[_sh(t) for t, _ in p.decisions]}'
+            continue
+        cmps = list(seen_cmps)
+        if isinstance(p.value, _T) and p.value.op == 'cmp':
+            cmps.append(p.value)
+        norm = set()
+        for c in cmps:
+            op, l, r = c.args
+            if op in ('>=', '>'):
+                l, r = r, l
+                op = '<=' if op == '>=' else '<'
+            norm.add((op, l, r))
+        shown = ' and '.join(sorted(f'{_sh(l)} {op} {_sh(r)}' for op, l, r in norm))
+        if norm == {('<=', V['lower'], V['operand']), ('<=', V['operand'], V['upper'])} and (p.value is True or (isinstance(p.value, _T) and p.value.op == 'cmp')):
+            good = True
+    if good:
+        res.ok({'overload': 'Between (10 overloads)', 'term': 'LOWER <= OPERAND and OPERAND <= UPPER'})
     else:
-        t = _tx(rets[0].value, env, call)
-        if t in want or _between_and_form(t):
-            res.ok({'overload': 'Between (10 overloads)', 'term': repr(t)})
-        else:
-            res.fail(ci.fq + '.__call__', 'operation',
-                     f'BETWEEN must compute lower <= operand <= upper (both bounds inclusive), computes {_show(t)}', loc(call))
+        res.fail(ci.fq + '.__call__', 'operation',
+                 f'BETWEEN must compute lower <= operand <= upper (both bounds inclusive) on non-NULL operands, computes {shown}', loc(call))
     return res
 
 
@@ -707,4 +729,7 @@ def rule_nullstrict(P) -> RuleResult:       # noqa: F811
                      f'{"NULL" if got is None else repr(got)}', loc(call))
         else:
             res.ok({'class': name, 'null_truth_table_cases': ncases})
+            # the truth table is exact and covers every NULL / non-NULL assignment: it supersedes the (approximate,
+            # non-relational) flow judgement for this class
+            res.findings = [f for f in res.findings if not (f.detail == 'null-flow' and f.construct == ci.fq + '.__call__')]
     return res
